@@ -16,7 +16,7 @@ from vlib.core import Stage, fail
 ID = "C16"
 MANIFEST = {
     "category": "fault_enumeration",
-    "text": "Generated fault injection with a differential oracle: deep AHBs x content evaluation results x a drawn non-empty set of nodes (groups, segments, free-text elements, entries of value pools) each receiving a structurally invalid expression (neutral-vs-requirement O/X mix or bare hint/format-constraint pair at any depth; under any indicator; alone, as a later modal-mark part, hidden in a package, or with up to four of its parts - at any depth - written as packages of their own; also every entry of one value pool at once). validate_deep_anwendungshandbuch of the faulted AHB must not raise InvalidExpressionError; compared with the run on the AHB where each injected expression is replaced by 'Kann': NotImplementedError in one iff in the other, same discriminators in the same order, every non-faulted node's result equal (value pools with a faulted entry included: the entry counts as selectable), every faulted group/segment/free-text node reported optional with the reason as hint - the message of the InvalidExpressionError that evaluating the injected expression, with every package body written out in its place, raises on its own under the same content. A third of the cases validate the same faulted AHB a second time, in the same process, under a different content evaluation result. A fifth of the injected faults are invalid because of the evaluator's answer: a requirement constraint answered NEUTRAL next to a boolean operand in O / X. Expressions whose parts are written as packages are made binary first (explicit brackets): the grouping inside a run of one operator is unspecified and decides which offending pair is met first.",
+    "text": "Generated fault injection with a differential oracle: deep AHBs x content evaluation results x a drawn non-empty set of nodes (groups, segments, free-text elements, entries of value pools) each receiving a structurally invalid expression (neutral-vs-requirement O/X mix or bare hint/format-constraint pair at any depth; under any indicator; alone, as a later modal-mark part, hidden in a package, or with up to four of its parts - at any depth - written as packages of their own; also every entry of one value pool at once). validate_deep_anwendungshandbuch of the faulted AHB must not raise InvalidExpressionError; compared with the run on the AHB where each injected expression is replaced by 'Kann': NotImplementedError in one iff in the other, same discriminators in the same order, every non-faulted node's result equal (value pools with a faulted entry included: the entry counts as selectable), every faulted group/segment/free-text node reported optional with the reason as hint - the message of the InvalidExpressionError that evaluating the injected expression, with every package body written out in its place, raises on its own under the same content. A third of the cases validate the same faulted AHB a second time, in the same process, under a different content evaluation result. A fifth of the injected faults are invalid because of the evaluator's answer: a requirement constraint answered NEUTRAL next to a boolean operand in O / X. Expressions whose parts are written as packages are made binary first (explicit brackets): the grouping inside a run of one operator is unspecified and decides which offending pair is met first. Every case keeps one maus object of the faulted AHB and one of its 'Kann' twin; the second validation (other content) validates these same objects again, unless the first one was aborted by the documented NotImplementedError (an aborted run has blanked unexpected value-pool inputs of the nodes it happened to reach).",
     "note": "Trusted: gen.g_dom_invalid / ref.validity (the injected expressions are invalid by the structural criterion of C06), attrs equality of results. Faults are sampled, not enumerated exhaustively: subsets of up to 5 nodes per tree. Process configuration by shard (vlib/sut.py; recorded in replay files): plain / parse caches preheated beyond their size / warnings attributed to ahbicht raised as errors / logging fully enabled with every record rendered; one event loop per process or a new one per call; five process time zones; the hash seed is the shard number; namesakes of ahbicht's marshmallow schema classes are registered. Every registry of evaluators / providers / resolvers that the harness builds (sut.configure) also holds one of each kind that names no EDIFACT format and no format version; these must never be asked.",
     "technique": "property-based fault injection with a differential oracle (faulted AHB vs the same AHB with 'Kann' at the faulted nodes)",
 }
@@ -69,23 +69,32 @@ def _reason(expr_text, tree, cer):
 
 
 def check(case):
-    info = check_once(case, case["cer"])
+    # one maus object per case: an application validates the AHB it holds again and again (after every edit, for every
+    # message); validation must leave it as it is
+    # (the 'Kann' twin likewise: ahbicht documents that it blanks an unexpected value of a value pool, so both objects
+    # must have the same history)
+    built = (vtree.build(case["tree"]), vtree.build(kann_tree(case["tree"])))
+    info = check_once(case, case["cer"], built)
     if case.get("cer2") is not None:
-        # the same AHB validated again in the same process with other content: the reasons are those of *this* content
-        second = check_once(case, case["cer2"])
+        # the same AHB object validated again in the same process with other content: the reasons are those of *this* content
+        if info["nie"]:
+            # an aborted validation has blanked the unexpected values of those value pools it happened to reach before
+            # the abort - not the same ones in the two objects; start again from fresh objects
+            built = (vtree.build(case["tree"]), vtree.build(kann_tree(case["tree"])))
+        second = check_once(case, case["cer2"], built)
         info["second_validation"] = True
         info["visited_faults"] += second["visited_faults"]
     return info
 
 
-def check_once(case, cer):
+def check_once(case, cer, built=None):
     deep = _api()
     tree, soll = case["tree"], case["soll"]
     reference = kann_tree(tree)
     vtree.setup(tree, cer)
-    faulted = sut.call(deep, vtree.build(tree), soll)
+    faulted = sut.call(deep, built[0] if built is not None else vtree.build(tree), soll)
     vtree.setup(reference, cer)
-    baseline = sut.call(deep, vtree.build(reference), soll)
+    baseline = sut.call(deep, built[1] if built is not None else vtree.build(reference), soll)
     info = {"visited_faults": 0, "levels": set(), "big_subtree": False, "nie": False}
     if not faulted.ok and faulted.is_a(sut.InvalidExpressionError):
         fail("aborted", f"validation was aborted by the invalid expression: {faulted!r}")
